@@ -420,7 +420,7 @@ def extract_item(spec, contracts, log):
     if pre:
         out += pre.rstrip() + '\n'
     out += segs.text() + '\n'
-    wrap = spec.get('wrap', inside if (inside and is_fn) else None)
+    wrap = spec['wrap'] if 'wrap' in spec else (inside if (inside and is_fn) else None)
     if wrap:
         w = wrap.rstrip()
         if not w.endswith('{'):
